@@ -38,6 +38,11 @@ import (
 // code blocks (initializer, actions, predicates, state blocks), skipping literals, classes, comments and the label
 // lists of the throw and recovery operators. endOf decides where a block ends; scanning resumes there.
 func pegCodeBlocks(src []byte, endOf func(src []byte, open int) int) []int {
+	return pegScan(src, endOf, nil)
+}
+
+// pegScan is pegCodeBlocks with a callback for every `//{` met outside literals, classes, comments and code blocks.
+func pegScan(src []byte, endOf func(src []byte, open int) int, onRecovery func(off int)) []int {
 	var out []int
 	i := 0
 	for i < len(src) {
@@ -45,6 +50,9 @@ func pegCodeBlocks(src []byte, endOf func(src []byte, open int) int) []int {
 		switch {
 		case ch == '/' && i+2 < len(src) && src[i+1] == '/' && src[i+2] == '{':
 			// recovery operator //{labels}
+			if onRecovery != nil {
+				onRecovery(i)
+			}
 			j := bytes.IndexByte(src[i:], '}')
 			if j < 0 {
 				return out
@@ -394,6 +402,31 @@ func bootstrapSubset(c *Ctx, rule string) {
 		r.Unk(rule, "A.grammar:code-blocks-delimited-alike-by-every-stage", "", "grammar/", fmt.Sprintf("the Code rules no longer have the shapes the two delimiting models were written for (bootstrap references %s, pigeon %s)", bootRefs, fullRefs))
 	}
 	r.Analysed["grammar_code_blocks"] = nBlocks
+
+	// ---- (5) comments: where the two grammars define SingleLineComment differently (pigeon.peg excludes `//{`, which
+	// opens the label list of a recovery expression; bootstrap.peg and the hand-written scanner read `//` plus anything
+	// as a comment), the texts themselves must not contain `//{` where a comment or an operator can stand: stage 2
+	// would skip a line that stage 3 reads as the tail of the rule before it.
+	if boot["SingleLineComment"] != "" && boot["SingleLineComment"] == full["SingleLineComment"] {
+		r.Ok(rule, "A.grammar:comments-delimited-alike-by-every-stage", "", "grammar/", "the two grammars define SingleLineComment identically")
+	} else {
+		var bad []string
+		nScanned := 0
+		for _, gf := range []string{"grammar/pigeon.peg", "grammar/bootstrap.peg"} {
+			src, err := os.ReadFile(filepath.Join(repo, gf))
+			if err != nil {
+				r.Fatal("%s: %v", rule, err)
+				return
+			}
+			nScanned++
+			pegScan(src, codeEndLexical, func(off int) {
+				bad = append(bad, fmt.Sprintf("%s:%d: `//{` outside literals, classes and code blocks: a comment for bootstrap.peg's SingleLineComment (\"//\" up to the line end) and the label list of a recovery expression for pigeon.peg's (which excludes \"//{\")", gf, 1+bytes.Count(src[:off], []byte("\n"))))
+			})
+		}
+		r.Check(len(bad) == 0 && nScanned == 2, rule, "A.grammar:comments-delimited-alike-by-every-stage", "", "grammar/pigeon.peg, grammar/bootstrap.peg",
+			"no `//{` at operator level in either grammar text: every `//` there is a comment for all three front-ends",
+			strings.Join(bad, "; ")+" - stage 2 (bootstrap-pigeon) skips the line and reproduces pigeon.go, stage 3 (pigeon) reads it as a recovery expression: pigeon can no longer regenerate itself")
+	}
 
 	// ---- (3) rule-definition operators, (4) identifiers
 	var ops []string
